@@ -43,12 +43,12 @@ def _prop_roundtrip(name, value):
     return ev2, wire
 
 
-def text_property(s: str):
+def text_property(s: str, name="summary"):
     try:
-        ev2, wire = _prop_roundtrip("summary", s)
+        ev2, wire = _prop_roundtrip(name, s)
     except Exception:
         return False, None, None
-    v = ev2.get("summary")
+    v = ev2.get(name)
     if v is None or isinstance(v, list) or ev2.errors or len(ev2) != 1 or ev2.subcomponents:
         return False, None, wire
     return True, str(v), wire
